@@ -9,7 +9,7 @@ SPEC = {
             "(more than half a width) between the two evaluations of the repeated step); after EVERY call the reported value, velocity, potential and kinetic energy, total force, the "
             "new position and the atomic force are compared with a reference BAOA integrator; plus energy conservation at "
             "two time steps without friction; states = distinct final (x,v), transitions = Colvars steps"
-            " Later additions: the data collected by consumers of the extended coordinate's total force (eABF, TI samples of a restraint) under the two engine conventions, all 243 words of five moves, must be identical.",
+            " Later additions: the data collected by consumers of the extended coordinate's total force (eABF, TI samples of a restraint) under the two engine conventions, all 243 words of five moves, must be identical, and the CZAR z-grids of an unapplied eABF bias must hold each reported force in the bin the actual variable occupied when it was exerted.",
     "assumptions": ["reference scheme: B (two half kicks, kinetic energy in between), A, O, A, as in the cited BAOA/GSD paper",
                     "on a reflection the statement constrains the position only: the reference takes over the implementation's "
                     "velocity after checking the reflected position",
